@@ -29,6 +29,33 @@ type Case struct {
 	// CtxDone: the handler waits until its context is done (the client's
 	// deadline, propagated to the server, has passed) and panics only then.
 	CtxDone bool `json:"ctx_done,omitempty"`
+	// InInterceptor: the panic is raised not by the handler function but by an
+	// interceptor declared AFTER WithRecover, i.e. nested inside it (Behind ≥ 1).
+	InInterceptor bool `json:"in_interceptor,omitempty"`
+}
+
+// panicker is an interceptor that panics instead of calling on (warm-up calls
+// pass through).
+type panicker struct{ kind string }
+
+func (p panicker) WrapUnary(next connect.UnaryFunc) connect.UnaryFunc {
+	return func(ctx context.Context, req connect.AnyRequest) (connect.AnyResponse, error) {
+		if req.Header().Get("X-Verif-No-Panic") == "" {
+			prog.DefaultPanic(p.kind)
+		}
+		return next(ctx, req)
+	}
+}
+func (p panicker) WrapStreamingClient(n connect.StreamingClientFunc) connect.StreamingClientFunc {
+	return n
+}
+func (p panicker) WrapStreamingHandler(next connect.StreamingHandlerFunc) connect.StreamingHandlerFunc {
+	return func(ctx context.Context, conn connect.StreamingHandlerConn) error {
+		if conn.RequestHeader().Get("X-Verif-No-Panic") == "" {
+			prog.DefaultPanic(p.kind)
+		}
+		return next(ctx, conn)
+	}
 }
 
 type passthrough struct{ connect.Interceptor }
@@ -82,7 +109,7 @@ func handlerProg(c Case) (*prog.HandlerProg, []prog.Msg) {
 			j++
 		}
 	}
-	if c.Panic != "" {
+	if c.Panic != "" && !c.InInterceptor {
 		if c.CtxDone {
 			hp.Steps = append(hp.Steps, prog.HStep{Op: "waitctx"})
 		}
@@ -121,6 +148,10 @@ func run(c Case, withRecover bool) (*prog.CResult, *memnet.Exchange, []recCall) 
 		}))
 		ics = nil
 		for i := 0; i < c.Behind; i++ {
+			if i == 0 && c.InInterceptor && c.Panic != "" {
+				ics = append(ics, panicker{kind: c.Panic})
+				continue
+			}
 			ics = append(ics, passthrough{})
 		}
 		if len(ics) > 0 {
@@ -178,7 +209,7 @@ func check(tt *testing.T, c Case) (pbt.Info, error) {
 	if berr := pbt.Bubble(tt, func() error { res, ex, calls = run(c, true); return nil }); berr != nil {
 		return info, berr
 	}
-	where := fmt.Sprintf("%s/%s panic(%s) after %d steps (after its context ended: %v), %d interceptors before and %d behind WithRecover", c.Cfg.Protocol, c.Cfg.Kind, c.Panic, c.After, c.CtxDone, c.Before, c.Behind)
+	where := fmt.Sprintf("%s/%s panic(%s) [in an interceptor nested inside WithRecover: %v] after %d steps (after its context ended: %v), %d interceptors before and %d behind WithRecover", c.Cfg.Protocol, c.Cfg.Kind, c.Panic, c.InInterceptor, c.After, c.CtxDone, c.Before, c.Behind)
 	if ex == nil {
 		return info, fmt.Errorf("%s: no exchange", where)
 	}
@@ -289,8 +320,16 @@ func gen(t *rapid.T) Case {
 	}
 	c.Warmups = rapid.SampledFrom([]int{0, 0, 1, 2}).Draw(t, "warmups")
 	c.CtxDone = c.Panic != "" && rapid.IntRange(0, 4).Draw(t, "ctxDone") == 0
+	if c.Panic != "" && !c.CtxDone && rapid.IntRange(0, 5).Draw(t, "inInterceptor") == 0 {
+		// raised by an interceptor nested inside the recover interceptor,
+		// before the handler function is reached
+		c.InInterceptor, c.After, c.More = true, 0, 0
+	}
 	c.Before = rapid.IntRange(0, 2).Draw(t, "before")
 	c.Behind = rapid.IntRange(0, 2).Draw(t, "behind")
+	if c.InInterceptor {
+		c.Behind = max(c.Behind, 1)
+	}
 	if rapid.IntRange(0, 3).Draw(t, "plainret") == 0 {
 		c.Returns = prog.ErrSpec{Plain: true, Msg: rapid.SampledFrom([]string{"recovered", "", "ünï %"}).Draw(t, "retmsg")}
 	} else {
@@ -307,7 +346,7 @@ func gen(t *rapid.T) Case {
 
 var spec = pbt.Spec[Case]{
 	Prop: "C19", Name: "recover", Gen: gen, Check: check,
-	Rule: "rapid-generated panic value (nil, error, *connect.Error, string, int, struct, pointer, runtime error, http.ErrAbortHandler, an error wrapping it) or a no-panic control × 4 RPC kinds × 3 protocols × 2 codecs × panic point (before any receive, after i receives, after j sends, with further sends scheduled; optionally only after the handler's context has ended because the propagated client deadline passed) × position of WithRecover among 0..4 pass-through interceptors × what the recovery function returns (coded error with details/metadata, plain error) × 0..2 non-panicking calls through the same handler first; oracle: called exactly once with the value a plain deferred recover() yields for the same panic in the same binary (differential against the Go runtime, so both panicnil modes are covered), client receives exactly the returned error after the messages already sent, the abort sentinel is re-raised identically without calling the function, and a non-panicking exchange is byte-identical to the same handler without WithRecover; non-trivial = progress before the panic OR nil/abort value OR interceptors outside the recover interceptor",
+	Rule: "rapid-generated panic value (nil, error, *connect.Error, string, int, struct, pointer, runtime error, http.ErrAbortHandler, an error wrapping it) or a no-panic control × 4 RPC kinds × 3 protocols × 2 codecs × panic point (before any receive, after i receives, after j sends, with further sends scheduled; optionally only after the handler's context has ended because the propagated client deadline passed; or raised by an interceptor declared after WithRecover, i.e. nested inside it) × position of WithRecover among 0..4 pass-through interceptors × what the recovery function returns (coded error with details/metadata, plain error) × 0..2 non-panicking calls through the same handler first; oracle: called exactly once with the value a plain deferred recover() yields for the same panic in the same binary (differential against the Go runtime, so both panicnil modes are covered), client receives exactly the returned error after the messages already sent, the abort sentinel is re-raised identically without calling the function, and a non-panicking exchange is byte-identical to the same handler without WithRecover; non-trivial = progress before the panic OR nil/abort value OR interceptors outside the recover interceptor",
 }
 
 func TestRecover(t *testing.T) { pbt.Run(t, spec) }
